@@ -87,7 +87,7 @@ def rule_source(ctx) -> None:
     m = ctx.m(RNG)
     n = 0
     for q, f in sorted(prog.functions.items()):
-        if f.module is not m:
+        if f.module is not m or "rand" not in f.name.lower():
             continue
         ctx.chk.analysed(q)
         rets = A.returns_in(f.node)
